@@ -1119,3 +1119,105 @@ def fn_text_with_helpers(fn, inline=False):
         if h.block is not None:
             parts.append(fn_text(h, inline=inline))
     return Txt(";".join(parts))
+
+
+def _str_lit(e):
+    e = peel(e) if isinstance(e, dict) else e
+    if kind(e) == "Expr::Lit" and kind(e["lit"]) == "Lit::Str":
+        return e["lit"]["token"]["value"]
+    return None
+
+
+def _pat_strs(p):
+    """string literals a pattern accepts (`"A"` / `"A" | "B"`), or None"""
+    k = kind(p)
+    if k == "Pat::Lit":
+        v = _str_lit(p) if "lit" not in p else (p["lit"]["token"]["value"] if kind(p["lit"]) == "Lit::Str" else None)
+        return [v] if v is not None else None
+    if k == "Pat::Or":
+        out = []
+        for c in p["cases"]:
+            s = _pat_strs(c)
+            if s is None:
+                return None
+            out += s
+        return out
+    if k == "Pat::Paren":
+        return _pat_strs(p["pat"])
+    return None
+
+
+def _eq_strs(cond):
+    """string literals `X == "A"` / `X == "A" || X == "B"` / `matches!(X, "A" | "B")` compares with, or None"""
+    cond = peel(cond)
+    k = kind(cond)
+    if k == "Expr::Binary":
+        op = kind(cond["op"])
+        if op == "BinOp::Eq":
+            for a in (cond["left"], cond["right"]):
+                v = _str_lit(a)
+                if v is not None:
+                    return [v]
+            return None
+        if op == "BinOp::Or":
+            l, r = _eq_strs(cond["left"]), _eq_strs(cond["right"])
+            return l + r if l is not None and r is not None else None
+    if k == "Expr::Macro" and path_last(cond["mac"]["path"]) == "matches":
+        vs = [t["lit"]["value"] for t in cond["mac"]["tokens"] if kind(t) == "Literal" and isinstance(t.get("lit"), dict) and t["lit"].get("kind") == "str"]
+        return vs or None
+    return None
+
+
+def _tail_str(e):
+    """the string literal an arm body / block evaluates to"""
+    e = peel(e)
+    if kind(e) == "Expr::Block" and len(e["block"]["stmts"]) == 1 and kind(e["block"]["stmts"][0]) == "Stmt::Expr":
+        return _tail_str(e["block"]["stmts"][0]["0"])
+    if kind(e) == "Block" and len(e["stmts"]) == 1 and kind(e["stmts"][0]) == "Stmt::Expr":
+        return _tail_str(e["stmts"][0]["0"])
+    if kind(e) == "Expr::Return" and e.get("expr") is not None:
+        return _tail_str(e["expr"])
+    return _str_lit(e)
+
+
+def string_table(fn, files=None):
+    """A function that maps string keys to string literals, read as a table {key: value}: `match x { "A" => "a", .. }`,
+    `match () { _ if x == "A" => "a", .. }`, `if x == "A" { "a" } else if ..`, early `if x == "A" { return "a" }`, or a
+    table of `("A", "a")` pairs (in the function or in a const / static of the same file that it names).
+    First binding of a key wins (arm order). None when no such shape is found."""
+    out = {}
+
+    def put(keys, val):
+        if keys is None or val is None:
+            return
+        for k_ in keys:
+            out.setdefault(k_, val)
+
+    for x, ps in walk(fn.block):
+        k = kind(x)
+        if k == "Expr::Match":
+            for arm in x["arms"]:
+                keys = _pat_strs(arm["pat"])
+                if keys is None and arm.get("guard") is not None:
+                    g = arm["guard"]
+                    g = g[1] if isinstance(g, list) else g.get("1", g) if isinstance(g, dict) and "1" in g else g
+                    keys = _eq_strs(g)
+                put(keys, _tail_str(arm["body"]))
+        elif k == "Expr::If" and kind(x["cond"]) != "Expr::Let":
+            put(_eq_strs(x["cond"]), _tail_str(x["then_branch"]))
+        elif k == "Expr::Tuple" and len(x["elems"]) == 2:
+            a, b = _str_lit(x["elems"][0]), _str_lit(x["elems"][1])
+            if a is not None and b is not None:
+                put([a], b)
+    # tables in consts / statics the function names
+    names = {path_str(p).split("::")[-1] for p, _ in find(fn.block, "Expr::Path") if path_str(p)}
+    for it, mods, cfgs in iter_items(fn.file.ast["items"]):
+        if kind(it) in ("Item::Const", "Item::Static") and it["ident"]["sym"] in names:
+            for x, _ in find(it["expr"], "Expr::Tuple"):
+                if len(x["elems"]) == 2:
+                    a, b = _str_lit(x["elems"][0]), _str_lit(x["elems"][1])
+                    if a is not None and b is not None:
+                        put([a], b)
+    for st, _ in find(fn.block, ("Stmt::Item",)):
+        pass
+    return out or None
